@@ -42,7 +42,12 @@ AggCases == [fam : {"agg"}, p : {"RegisterCoin"}, f : {"valid", "evmdenom", "nos
        \cup [fam : {"agg"}, p : {"EnableLimit"}, f : {"valid", "zero", "negative", "nonnumeric", "huge", "notbound"}]
        \cup [fam : {"agg"}, p : {"DisableLimit"}, f : {"valid", "notenabled", "notcontract"}]
 
-Cases == TmCases \cup TssCases \cup BscCases \cup EthCases \cup RvCases \cup AggParamCases \cup AggCases
+(* genesis states of the three modules, by classes: what module genesis validation accepts must initialise without a panic *)
+GenCases == [fam : {"genesis"}, sub : {"aggregate"}, f : {"default", "one", "two", "nodenoms", "emptydenom", "dupdenom", "dupsecond", "duperc20", "badaddr", "noowner", "paramsonly"}]
+       \cup [fam : {"genesis"}, sub : {"rvesting"}, from : {"none", "funded", "poor", "unknown", "invalid"}, reward : {"none", "small", "big", "zero", "twodenoms", "unsorted"}]
+       \cup [fam : {"genesis"}, sub : {"xibc"}, f : {"default", "tssclient", "clientnocons", "consnoclient", "metanoclient", "relayermismatch", "emptynative", "duprelayer"}]
+
+Cases == TmCases \cup TssCases \cup BscCases \cup EthCases \cup RvCases \cup AggParamCases \cup AggCases \cup GenCases
 Init == c \in Cases
 Next == UNCHANGED c
 Spec == Init /\ [][Next]_c
